@@ -47,6 +47,12 @@ def median(array, width=None, axis=None, even=False):
     """
     import numpy as np
     from scipy.signal import medfilt, medfilt2d
+    if width is not None and not array.dtype.isnative:
+        #
+        # scipy's median filters only accept native byte order; data read
+        # from FITS files are big-endian.
+        #
+        array = array.astype(array.dtype.newbyteorder('='))
     if width is None:
         if axis is None:
             f = array.flatten()
